@@ -1,6 +1,8 @@
 """C12 - the local filter implements its documented window predicate (DESIGN.md section 4, C12)."""
 from fractions import Fraction
 
+import numpy as np
+
 from vlib import clock, gens, oracles
 from vlib.base import import_dsw
 from vlib.coding import monitored
@@ -39,6 +41,8 @@ def ref_valid(cfg, s, only_last):
             return False, "run"
     if motifs is not None:
         for m in motifs:
+            if any(c not in "ACGT" for c in m):
+                continue            # a motif with a symbol outside the alphabet (IUPAC N, U) can never occur in an acceptable string
             if m in obs or oracles.revcomp(m) in obs:
                 return False, "motif"
     if gc is not None:
@@ -109,6 +113,10 @@ def _motifs(rng, k):
         out.append(m)
     if rng.random() < 0.2:
         out.append(oracles.revcomp(rng.choice(out)))     # a motif listed together with its own reverse complement
+    if rng.random() < 0.08 and k >= 2:
+        m = list(gens.random_dna(rng, rng.randint(2, k)))
+        m[rng.randrange(len(m))] = rng.choice("NNURYW")  # restriction sites are often written with IUPAC wildcards
+        out.append("".join(m))
     return out
 
 
@@ -162,7 +170,8 @@ def _strings(rng, cfg):
     if cfg["motifs"]:
         base = _exact_gc(rng, 2 * k + 1, k)
         for m in cfg["motifs"]:
-            for ins in (m, oracles.revcomp(m), m[:-1]):
+            acgt_motif = all(c in "ACGT" for c in m)
+            for ins in ((m, oracles.revcomp(m), m[:-1]) if acgt_motif else ("".join(c if c in "ACGT" else "A" for c in m), m)):
                 p = rng.randrange(len(base) + 1)
                 out.append(("motif", base[:p] + ins + base[p:]))
                 out.append(("motif-tail", base + ins))
@@ -240,6 +249,10 @@ def generate(ctx):
 
 def _build(dsw, cfg):
     gc = None if cfg["gc"] is None else [float(Fraction(cfg["gc"][0])), float(Fraction(cfg["gc"][1]))]
+    if gc is not None:
+        # the range as callers hold it: a list, a tuple, a float64 array (a row of a settings table)
+        form = ("list", "tuple", "float64 array")[(cfg["k"] + len(cfg["motifs"] or ()) + (cfg["run"] or 0)) % 3]
+        gc = gc if form == "list" else tuple(gc) if form == "tuple" else np.array(gc, dtype=float)
     return dsw.LocalBioFilter(observed_length=cfg["k"], max_homopolymer_runs=cfg["run"], gc_range=gc,
                               undesired_motifs=None if cfg["motifs"] is None else list(cfg["motifs"]))
 
@@ -379,7 +392,12 @@ def check_config_edits(ctx, case):
                 f.max_homopolymer_runs = st[1]
                 cfg["run"] = st[1]
             elif f.gc_range is not None:
-                f.gc_range[st[1]] = float(Fraction(st[2]))
+                if isinstance(f.gc_range, tuple):       # a tuple is replaced, a list / array is edited in place
+                    new = list(f.gc_range)
+                    new[st[1]] = float(Fraction(st[2]))
+                    f.gc_range = tuple(new)
+                else:
+                    f.gc_range[st[1]] = float(Fraction(st[2]))
                 cfg["gc"][st[1]] = st[2]
     ctx.cls("settings of one filter object edited in place between calls")
     ctx.done("config_edits", case, True)
